@@ -275,7 +275,7 @@ PoolC13 == SetToSeqD(
   \cup { RD("redirect", "r1.js", "none"), [RD("redirect-rule", "r1.js", "none") EXCEPT !.exc = TRUE],
          [RD("redirect-rule", "r1", "10") EXCEPT !.exc = TRUE], RD("redirect", "nj", "10"), RD("redirect-rule", "njalias", "none"),
          RD("redirect", "permcss", "1"), [RD("redirect-rule", "nj.js", "none") EXCEPT !.exc = TRUE],
-         RD("redirect", "aa0", "none"), RD("redirect", "zqb", "none"), RD("redirect", "q1", "none") }
+         RD("redirect", "image", "none"), RD("redirect", "zqb", "none"), RD("redirect", "q1", "none") }
   \cup { [R0 EXCEPT !.body = B("/ab")], [R0 EXCEPT !.body = B("/ab"), !.exc = TRUE],
          [R0 EXCEPT !.body = B("/ab"), !.important = TRUE],
          [RD("redirect", "r2", "1") EXCEPT !.important = TRUE],
@@ -343,7 +343,7 @@ ResSeqC13 == <<
   [name |-> "yy", aliases |-> {"al1"}, redirectable |-> TRUE, perm |-> 0, kind |-> "text/plain", content |-> "late-yy"],
   \* refused because ONE of its aliases is taken; its other alias must not stay registered, even when a resource
   \* with the same name is accepted afterwards (two spellings: which alias is looked at first is an implementation matter)
-  [name |-> "q1", aliases |-> {"aa0", "al1"}, redirectable |-> TRUE, perm |-> 0, kind |-> "text/plain", content |-> "late-q1"],
+  [name |-> "q1", aliases |-> {"image", "al1"}, redirectable |-> TRUE, perm |-> 0, kind |-> "text/plain", content |-> "late-q1"],
   [name |-> "q1", aliases |-> {}, redirectable |-> TRUE, perm |-> 0, kind |-> "text/plain", content |-> "q1"],
   [name |-> "q2", aliases |-> {"zqb", "al1"}, redirectable |-> TRUE, perm |-> 0, kind |-> "text/plain", content |-> "late-q2"],
   [name |-> "q2", aliases |-> {}, redirectable |-> TRUE, perm |-> 0, kind |-> "text/plain", content |-> "q2"]
